@@ -212,10 +212,13 @@ def _leak_dro(thorough):
 
 
 # ------------------------------------------------------------------------------------------------ cache protocol
-RO_FULL = ['lin', 'bnd', 'soc', 'ipc', 'exp', 'rown', 'rdef', 'late', 'adapt']
+RO_FULL = ['lin', 'bnd', 'soc', 'ipc', 'exp', 'rown', 'rdef', 'late', 'adapt', 'refor']
+RO_REFOR = ['rown', 'refor']                    # forall again on a stated constraint, after P / D / S (depth 4)
+REQUIRES = {'refor': 'rown', 'reford': 'rob'}
 RO_CORE = ['exp', 'rdef', 'late', 'adapt']
 DRO_SMALL = ['rob', 'ecn', 'late', 'evt', 'lsupp', 'lexp', 'lprob']
-DRO_QUICK = ['rob', 'ecn', 'late', 'evt', 'lsupp', 'lexp']
+DRO_Q1 = ['rob', 'ecn', 'late', 'reford', 'lsupp', 'lsuppw']       # forall again, support re-definitions
+DRO_Q2 = ['ecn', 'lsuppb', 'lexp', 'lexpe', 'lprob', 'lprob0']     # re-declared probability / expectation sets
 OPS_ALL = ['P', 'D', 'S', 'Sd', 'Q', 'G']
 OPS_CORE = ['P', 'D', 'S', 'Q', 'G']
 OPS_DRO = ['P', 'D', 'S', 'G']
@@ -232,6 +235,9 @@ def _words(decl, ops, depth):
             if s.startswith('st:'):
                 if s in used:
                     continue
+                req = REQUIRES.get(s[3:])
+                if req and ('st:' + req) not in used:
+                    continue
                 for w in rec(prefix + [s], used | {s}):
                     yield w
             else:
@@ -242,7 +248,10 @@ def _words(decl, ops, depth):
 
 def _seq_cases(thorough):
     plans = [('ro', RO_FULL, OPS_ALL, 4 if thorough else 3), ('ro', RO_CORE, OPS_CORE, 5 if thorough else 4),
-             ('dro', DRO_SMALL if thorough else DRO_QUICK, OPS_DRO, 4 if thorough else 3)]
+             ('ro', RO_REFOR, OPS_ALL, 5 if thorough else 4),
+             ('dro', DRO_Q1, OPS_DRO, 4 if thorough else 3), ('dro', DRO_Q2, OPS_DRO, 4 if thorough else 3)]
+    if thorough:
+        plans.append(('dro', DRO_SMALL, OPS_DRO, 4))
     for fe, decl, ops, depth in plans:
         for w in _words(decl, ops, depth):
             yield {'family': 'seq', 'fe': fe, 'word': w}
@@ -250,9 +259,9 @@ def _seq_cases(thorough):
 
 GRAPH_Q = [('ro', ['lin', 'exp', 'rdef', 'late'], ['P', 'D', 'S', 'Q', 'G']),
            ('ro', ['soc', 'ipc', 'rown', 'adapt'], ['P', 'D', 'S', 'Sd', 'G']),
-           ('ro', ['bnd', 'exp', 'adapt', 'rown'], ['P', 'D', 'Sd', 'Q']),
+           ('ro', ['refor', 'exp', 'adapt', 'rown'], ['P', 'D', 'Sd', 'Q']),
            ('dro', ['rob', 'ecn', 'lsupp'], ['P', 'D', 'S', 'G']),
-           ('dro', ['evt', 'ecn', 'lexp'], ['P', 'D', 'S'])]
+           ('dro', ['lprob', 'lprob0', 'lexp'], ['P', 'D', 'S'])]
 GRAPH_T = [('ro', ['lin', 'bnd', 'exp', 'rdef', 'late', 'adapt'], ['P', 'D', 'S', 'Sd', 'Q', 'G']),
            ('ro', ['soc', 'ipc', 'exp', 'rown', 'rdef', 'adapt'], ['P', 'D', 'S', 'Sd', 'Q', 'G']),
            ('dro', ['lin', 'soc', 'rob', 'ecn', 'evt'], ['P', 'D', 'S', 'G']),
@@ -291,6 +300,82 @@ def _alias_cases():
         yield {'family': 'alias', 'fe': fe, 'kind': kind, 'u1': u1, 'u2': u2}
 
 
+def _leak_pw(thorough):
+    """Piecewise constraints (maxof(p1, p2, p3) <= t).forall(own set) with a piece that has no explicit random
+    variable but contains a decision rule / affinely adaptive decision; own set != default set."""
+    bk = KINDS if thorough else TRIPLE_B
+    for ka in KINDS:
+        for kb in bk:
+            b = [{'op': 'pw', 'i': 0, 'set': [kb, 'L'], 'grp': 'B'}]
+            for ra in ('decoy', 'real', 'defsup'):
+                a = _ro_a(ra, ka, 'A', 1)
+                if ra == 'defsup':
+                    a = a + [{'op': 'defuse', 'i': 1, 'grp': 'A'}]
+                probe = [['A', 'B']] + ([['B', 'A']] if ra == 'real' else [])
+                for o, ev in (('AB', a + b), ('BA', b + a)):
+                    yield {'family': 'leak', 'fe': 'ro', 'ev': ev, 'probe': probe,
+                           'tag': '%s:%s->pw:%s|%s' % (ra, ka, kb, o)}
+    specs_b = _dro_specs_b()
+    if not thorough:
+        specs_b = [sb for sb in specs_b if sb[0] in ('supp:bnd', 'supp:n2', 'supp1:lin', 'expt:bnd', 'prob:pbox')]
+    for na, da in _dro_specs_a():
+        for ra in ('defobj', 'rc', 'decoy'):
+            if ra == 'decoy':
+                adef = _with(da, F=1, grp=None, pgrp='A')
+                ause = []
+            elif ra == 'rc':
+                adef = _with(da, F=1, grp='A')
+                ause = [{'op': 'rc', 'F': 1, 'i': 1, 'grp': 'A'}]
+            else:           # F1 is the DEFAULT ambiguity set (objective) and is used by a default-set constraint
+                adef = _with(da, F=1, grp='A')
+                ause = [{'op': 'defobj', 'mode': 'minsup', 'F': 1, 'grp': 'A'}, {'op': 'ec', 'F': 0, 'i': 1, 'grp': 'A'}]
+            for nb, db in specs_b:
+                bdef = _with(db, F=2, grp='B')
+                buse = [{'op': 'pw', 'F': 2, 'i': 0, 'grp': 'B'}]
+                probe = [['A', 'B']]
+                for o, ev in (('AB', adef + bdef + ause + buse), ('BA', bdef + adef + buse + ause)):
+                    yield {'family': 'leak', 'fe': 'dro', 'ev': ev, 'probe': probe,
+                           'tag': '%s:%s->pw:%s|%s' % (ra, na, nb, o)}
+
+
+def _leak_redef(thorough):
+    """The same slot of ONE ambiguity set declared twice before the first solve: the earlier definition is overridden
+    (it is a decoy: group None), the reference holds only the last one.  suppset whole / event level, probset (also
+    probset() as reset).  exptset is cumulative by design and is covered by the ordinary pairs."""
+    sk = ['bnd', 'lin', 'n1', 'n2', 'p3', 'exp', 'ent']
+    uses = ['rc', 'ec']
+    for k1 in sk:
+        for k2 in sk:
+            for lvl1, lvl2 in (('all', 'all'), (0, 0), (0, 'all')):
+                # the FIRST definition is completely overridden by the LAST one (a decoy: group None); a preliminary
+                # whole-level support keeps scenario 1 defined when both definitions are event-level
+                first = {'op': 'supp', 'F': 2, 'scen': lvl1, 'set': [k1, 's'], 'grp': None, 'pgrp': 'A'}
+                last = {'op': 'supp', 'F': 2, 'scen': lvl2, 'set': [k2, 'L'], 'grp': 'B'}
+                pre = []
+                if lvl1 == 0:
+                    pre = [{'op': 'supp', 'F': 2, 'scen': 'all', 'set': ['bnd', 'm']}]
+                    pre[0].update({'grp': 'B'} if lvl2 == 0 else {'grp': None, 'pgrp': 'A'})
+                for u in uses:
+                    ev = pre + [first, last] + [{'op': u, 'F': 2, 'i': 0, 'grp': 'B'}]
+                    yield {'family': 'leak', 'fe': 'dro', 'ev': ev, 'probe': [['A', 'B']],
+                           'tag': 'redef:supp%s:%s->%s:supp%s:%s|AB' % (lvl1, k1, u, lvl2, k2)}
+    supp = [{'op': 'supp', 'F': 2, 'scen': 0, 'set': ['bnd', 'L'], 'grp': 'B'},
+            {'op': 'supp', 'F': 2, 'scen': 1, 'set': ['bnd', 'm'], 'grp': 'B'}]
+    for p1 in PKINDS + ['pnone']:
+        for p2 in PKINDS + ['pnone']:
+            if p1 == p2:
+                continue
+            for u in ('ec', 'obj'):
+                first = {'op': 'prob', 'F': 2, 'set': p1, 'grp': None, 'pgrp': 'A'}
+                last = {'op': 'prob', 'F': 2, 'set': p2, 'grp': 'B'}
+                if u == 'obj':
+                    use = [{'op': 'defobj', 'mode': 'minsup', 'F': 2, 'grp': 'B'}, {'op': 'ec', 'F': 0, 'i': 0, 'grp': 'B'}]
+                else:
+                    use = [{'op': 'ec', 'F': 2, 'i': 0, 'grp': 'B'}]
+                yield {'family': 'leak', 'fe': 'dro', 'ev': supp + [first, last] + use, 'probe': [['A', 'B']],
+                       'tag': 'redef:prob:%s->%s:prob:%s|AB' % (p1, u, p2)}
+
+
 def gen_cases(tier, seed):
     thorough = tier == 'thorough'
     for c in _graph_cases(thorough):       # long single cases first so that they overlap with the short ones
@@ -298,6 +383,10 @@ def gen_cases(tier, seed):
     for c in _leak_ro(False):
         yield c
     for c in _leak_dro(False):
+        yield c
+    for c in _leak_pw(False):
+        yield c
+    for c in _leak_redef(False):
         yield c
     for c in _seq_cases(False):
         yield c
@@ -309,6 +398,8 @@ def gen_cases(tier, seed):
         for c in _seq_cases(True):
             yield c
         for c in _leak_dro(True):
+            yield c
+        for c in _leak_pw(True):
             yield c
         for c in _leak_ro(True):
             yield c
@@ -325,7 +416,8 @@ def bounds(tier):
                      'dro_orders': 'AB|BA|mix|late' if th else 'AB|BA'},
             'seq': {'ro_full_alphabet': ['st:' + d for d in RO_FULL] + OPS_ALL, 'ro_full_depth': 4 if th else 3,
                     'ro_core_alphabet': ['st:' + d for d in RO_CORE] + OPS_CORE, 'ro_core_depth': 5 if th else 4,
-                    'dro_alphabet': ['st:' + d for d in (DRO_SMALL if th else DRO_QUICK)] + OPS_DRO,
+                    'ro_forall_again_alphabet': ['st:' + d for d in RO_REFOR] + OPS_ALL, 'ro_forall_again_depth': 5 if th else 4,
+                    'dro_alphabets': [['st:' + d for d in a] + OPS_DRO for a in ([DRO_Q1, DRO_Q2] + ([DRO_SMALL] if th else []))],
                     'dro_depth': 4 if th else 3, 'implicit_final_checkpoint': 'solve(eco_solver)'},
             'graph': {'universes': [list(u) for u in (GRAPH_Q + (GRAPH_T if th else []))],
                       'bound': 'fixpoint of the abstract state graph (cap %d transitions per universe, a capped '
